@@ -52,3 +52,15 @@ package vgirpc
 //@   at call (*HttpServer).handleProducerContinuation assert [state_producer] arg4 == tokenData.State && isProducer && arg11 == tokenData.CallID
 //@   at call (*HttpServer).handleExchangeCall assert [state_exchange] arg6 == tokenData.State && !isProducer && arg13 == tokenData.CallID
 //@   at call (*HttpServer).handleStreamCancel assert [state_cancel] arg4 == tokenData.State && cancelled
+//@   # the continuation kind that runs is the kind the ROUTE's method was registered with; only a
+//@   # dynamic method leaves the choice to the state (and nothing else does, e.g. the token): the
+//@   # producer continuation runs only under a producer or dynamic route, the exchange continuation
+//@   # never under a producer route
+//@   at call (*HttpServer).handleProducerContinuation assert [kind_producer] info.Type == MethodProducer || info.Type == MethodDynamic
+//@   at call (*HttpServer).handleExchangeCall assert [kind_exchange] info.Type != MethodProducer
+
+// A method's registered kind never changes after registration (checked over the whole package:
+// methodInfo.Type is written only inside the composite literals of the Register functions), so
+// the kind read when the mode was chosen is the kind at the dispatch.
+//
+//@ immutable methodInfo.Type
